@@ -433,15 +433,15 @@ def graph_from_mask(n, mask, scale=2):
 
 
 def random_graph(rng, n, p=None):
-    p = p if p is not None else rng.choice([0.15, 0.3, 0.5])
-    ws = generic_weights(n * n, scale=n, rng=rng)
+    """Random digraph on n nodes; distinct rational weights 1/((n+1)(k+2)) (every row sum < 1/2: all path sums converge)."""
+    p = p if p is not None else rng.choice([0.12, 0.25, 0.4])
+    ks = list(range(n * n))
+    rng.shuffle(ks)
     edges = []
-    k = 0
     for i in range(n):
         for j in range(n):
             if rng.random() < p:
-                edges.append((i, j, ws[k]))
-            k += 1
+                edges.append((i, j, F(1, (n + 1) * (ks[i * n + j] + 2))))
     return edges
 
 
